@@ -3,19 +3,21 @@
   R1  submission: a job is inserted Ready only on the path `first update and no parents`; n_pending_parents receives the number of
       parents; every parent id yields a job_parents row (batch, job, parent); the edge insert rejects a repeated parent id (the count
       is the list length, the rows are keyed: a tolerant insert leaves a surplus that is never decremented)
-  R2  completion of a parent - COMPOSITE effect of the effective mark_job_complete (called procedures inlined) on the `jobs` table,
-      obtained by interpreting the routine over a micro-world (engines/jobgraphfacts.py): for every terminal new_state, every prior
-      state of the job itself and attempt-id relation, and every dependent (n_pending_parents 1..3 x cancelled x always_run):
-      with the job's own terminal transition and only then, the dependent's count drops by exactly one, it is Ready iff that was
-      the last pending parent (always_run or not, whatever the parent's outcome), it is cancelled iff it was or the parent did not
-      succeed (flag not consulted for always_run); a non-dependent, the job's own parent and a dependent in another batch are
-      untouched.  However the effect is split over statements, guards, helper procedures or join shapes.
-  R3  commit of a later update - COMPOSITE effect of the effective commit_batch_update on `jobs`, same technique: pending parents ==
-      parents not in a terminal state (8 states, parent without job row, same-update parent; multisets of <= 2), Ready iff 0,
-      cancelled raised iff some finished parent is not Success, for every stored count reachable while the update was open; each child
-      over its own parents; jobs outside the update's reserved id range and other batches untouched
+  R2  completion of a parent - COMPOSITE effect of the effective mark_job_complete (called procedures inlined) on the dependents, by
+      ABSTRACT execution (engines/jobgraphfacts.py): ids are opaque symbols, n_pending_parents of the dependent is a symbolic count
+      whose class ({1, >= 2, ..}) is split exactly where the code compares it, new_state / the job's prior state / attempt-id relation /
+      cancelled / always_run are enumerated where the code reads them; the rows each statement touches are decided from the normal form
+      (equality closure) of its join and WHERE conditions against the canonical `dependents of this job in this batch`.  Required: with
+      the job's own terminal transition and only then n -> n - 1, Ready iff n = 1 (always_run or not, whatever the outcome), cancelled
+      iff it was or the parent did not succeed (flag not consulted for always_run); no other jobs row selected.  Insensitive to how
+      the effect is split over statements, guards, helper procedures or join shapes.
+  R3  commit of a later update - COMPOSITE effect of the effective commit_batch_update on a generic job of the update, same technique:
+      the job's parents are count classes m[c] per (state of the parent's job row | no job row) x (earlier | same update); aggregates
+      become linear forms over them; required n_pending_parents' == sum of the non-terminal classes as a normal form (independent of the
+      stored count, which concurrent completions move), Ready iff 0, cancelled raised iff a finished parent is not Success; only when
+      this call commits; selection = this batch, the update's reserved id range, aggregates grouped and joined per child
   R4  consumers: the schedulers start non-always-run jobs only with cancelled = 0 (always-run jobs regardless)  [shared with C07-R5]
-Sibling agreement (which parent states count as done) is obtained by checking R2 and R3 against the same terminal set.
+Sibling agreement (which parent states count as done) follows from checking R2 and R3 against the same terminal set.
 Not decided: DAG arithmetic over interleavings; see C41 for uncommitted updates.
 """
 from __future__ import annotations
@@ -34,11 +36,11 @@ from engines.sqlast import N, text
 META = dict(
     category='other',
     text='The three places where dependency state is written (submission, parent completion, commit recount) are checked against the statement: the submission site '
-         'structurally, the two stored routines by their composite effect on a finite micro-world (our own interpreter over the extracted routine bodies): initial state, '
+         'structurally, the two stored routines by abstract execution over symbolic rows (opaque ids, symbolic counts split into classes where compared, enums split where read, row selections by normal form): initial state, '
          'decrement-by-one exactly with the parent\'s terminal transition, Ready iff last parent, failure propagation, terminal-state complement, untouched bystanders.',
     note='MySQL evaluates UPDATE assignments left to right (relied upon by the repository for IF(n_pending_parents = 1, ..) before the decrement). Triggers are checked not to write the '
-         'modelled tables. Trusted: SQL parser/evaluator, the micro-world interpreter (engines/jobgraphfacts.py).',
-    technique='static analysis: interpretation of extracted SQL routine bodies over a finite relational micro-world + Python def-use at the submission site',
+         'modelled tables. Trusted: SQL parser, the abstract executor (engines/jobgraphfacts.py).',
+    technique='static analysis: abstract execution of extracted SQL routine bodies over symbolic values with explicit case splits + normal forms of row selections + Python def-use at the submission site',
     design_ref='DESIGN.md §3 C05',
 )
 
@@ -321,8 +323,8 @@ def r4(ctx: Ctx) -> None:
 def run(ctx: Ctx) -> None:
     ctx.explanation = 'Clause-by-clause check of the three writers of dependency state and of the scheduler selections that consume the cancelled flag.'
     ctx.rule('R1', 'submission: Ready only for first-update jobs without parents; n_pending_parents = len(parent_ids); one job_parents row per parent, duplicates rejected', 5)
-    ctx.rule('R2', 'parent completion, composite effect of mark_job_complete on the dependents (micro-world interpretation): with the job\'s own terminal transition and only then: count - 1, Ready iff last pending parent, cancelled iff parent not Success (flag irrelevant for always_run), nothing but this job\'s children touched', 5)
-    ctx.rule('R3', 'commit recount, composite effect of commit_batch_update on jobs (micro-world interpretation over parent multisets x reachable stored counts): pending = non-terminal parents, Ready iff 0, cancelled iff a finished parent failed; per child; only the update\'s own jobs; only this batch', 4)
+    ctx.rule('R2', 'parent completion, composite effect of mark_job_complete on the dependents (abstract execution): with the job\'s own terminal transition and only then: count - 1, Ready iff last pending parent, cancelled iff parent not Success (flag irrelevant for always_run), nothing but this job\'s children touched', 5)
+    ctx.rule('R3', 'commit recount, composite effect of commit_batch_update on a job of the update (abstract execution over parent count classes): pending = non-terminal parents, Ready iff 0, cancelled iff a finished parent failed; per child; only the update\'s own jobs; only this batch', 4)
     ctx.rule('R4', 'schedulers start non-always-run jobs only with cancelled = 0; always-run jobs regardless', 4)
     ctx.assume('MySQL applies the SET assignments of an UPDATE left to right, later assignments seeing earlier new values (documented for single-table UPDATE; the repository relies on it for the multi-table children update)')
     prog = sf.load_program()
